@@ -356,7 +356,6 @@ func c17ClientCerts(c *Ctx) {
 	}
 }
 
-
 // c17CrossListenerResumption: two DoT and two DoH listeners in one proxy whose client certificates
 // must chain to different CAs. A client that holds a certificate of the first CA only is served by
 // the first listener (and receives a TLS session ticket there); with the same client configuration
